@@ -167,11 +167,15 @@ def gen_library_history(rng, schema, n_ops, rich_tracks=2, hostile=False):
 
     for _ in range(rich_tracks):
         push(FO.gen_track_create(rng, st, rich=True))
-    for _ in range(3):
+    guard = 0
+    while len(st.live_crates()) < 3 and guard < 12:
         push(FO.gen_crate_op(rng, st, hostile=False))
+        guard += 1
     push(FO.gen_track_create(rng, st))
-    for _ in range(3):
+    guard = 0
+    while len(st.members) < 2 and guard < 12:
         push(FO.gen_membership_op(rng, st))
+        guard += 1
     waveform_ok = {h: True for h in st.tracks}
     for _ in range(n_ops):
         r = rng.random()
